@@ -107,6 +107,15 @@ package rules
 // anchored function together with the helpers it calls (reach + parameter bindings, flow inlining restricted to
 // the helpers that matter). Silent on preserving/C14 r1-r4, C15 r1/r3/r4, C16 r2 (r4/C16 r2 hand-ported to HEAD).
 //
+// Robustness pass, second iteration (driver out/mut7.py = mutants on top of r6/r7/r8): level sources = every
+// func(string) ([]string, error) whose reach calls the splitter (get -> splitAndCache), the cache rule analyses the
+// level manager's method family as one; insert/remove are found by what they do (record / delete in <node>.clients,
+// any receiver, levels possibly handed in by the callers); collectors may be functions; predicates are interpreted in
+// place (wildcardNotAlone, isEmpty); a body handed to a lock wrapper (withWriteLock(func() error {..})) is the
+// operation's effective body and runs under the wrapper's lock; a break out of the level loop is classified like
+// the early return; byte-wise scan of the topic; frontier / result map may be fields of a per-call state struct
+// (places instead of variables); allSubscribes may build the QoS slice by looking the collected filters up.
+//
 // GENUINE DEFECTS found on the tree of the first pass (since fixed in /repo: 8fc741a, 90acb3c; demo out/zz_triage_test.go):
 //   R-C14-6 |(TopicManager).subscribe|all-or-nothing            — out/fix-1.diff
 //   R-C14-6 |(TopicManager).unsubscribe|every filter processed  — out/fix-2.diff
@@ -116,6 +125,7 @@ import (
 	"go/ast"
 	"go/token"
 	"go/types"
+	"strings"
 
 	"golang.org/x/tools/go/packages"
 
@@ -132,12 +142,15 @@ type c14env struct {
 
 	nodesF, clientsF, rootF, dataF *types.Var
 
-	collectors map[*types.Func]*ast.FuncDecl // topicNode methods copying recv.clients into a map parameter
-	writers    map[*types.Func]bool          // insert / remove (functions that store into the trie)
+	collectors    map[*types.Func]*ast.FuncDecl // functions copying <node>.clients into a map parameter
+	collectorNode map[*types.Func]int           // index of the node parameter (-1 = receiver)
+	collectorDst  map[*types.Func]int           // index of the destination map parameter
+	writers       map[*types.Func]bool          // insert / remove (functions that store into the trie)
 
 	insertPrevalidated bool // every insert call site is preceded by a validation loop over the batch
 
-	roles *c14roleSet
+	roles    *c14roleSet
+	wrappers map[*types.Func]c14wrapper
 }
 
 func c14(c *core.Ctx) string {
@@ -344,34 +357,75 @@ func c14isParam(f *flow.Func, o types.Object) bool {
 // recv.clients and store into a map parameter (today: addClients).
 func (e *c14env) findCollectors() {
 	e.collectors = map[*types.Func]*ast.FuncDecl{}
+	e.collectorNode = map[*types.Func]int{}
+	e.collectorDst = map[*types.Func]int{}
 	e.decls(func(f *flow.Func, fd *ast.FuncDecl) {
+		// the node: the receiver or a parameter of the trie node type; the destination: a map parameter
 		recv := c14recvObj(f, fd)
-		if recv == nil || !c14isNamed(recv.Type(), mq, "topicNode") {
-			return
+		params := c14params(f)
+		idxOf := func(o types.Object) int {
+			for i, p := range params {
+				if p == o {
+					return i
+				}
+			}
+			return -2
 		}
 		for _, rs := range c14ranges(fd.Body) {
 			x, ok := c14fieldRecv(f, rs.X, e.clientsF)
-			if !ok || c14obj(f, x) != recv {
+			if !ok {
 				continue
 			}
-			stores := false
+			no := c14obj(f, x)
+			nodeIdx := -2
+			switch {
+			case no != nil && no == recv:
+				nodeIdx = -1
+			case no != nil:
+				nodeIdx = idxOf(no)
+			}
+			if nodeIdx == -2 {
+				continue
+			}
+			dstIdx := -2
 			ast.Inspect(rs.Body, func(n ast.Node) bool {
 				if as, ok := n.(*ast.AssignStmt); ok {
 					for _, l := range as.Lhs {
-						if ix, ok := ast.Unparen(l).(*ast.IndexExpr); ok && c14isParam(f, c14obj(f, ix.X)) {
-							stores = true
+						if ix, ok := ast.Unparen(l).(*ast.IndexExpr); ok {
+							if i := idxOf(c14obj(f, ix.X)); i >= 0 {
+								dstIdx = i
+							}
 						}
 					}
 				}
 				return true
 			})
-			if stores {
+			if dstIdx >= 0 {
 				if o := e.funcObj(fd); o != nil {
 					e.collectors[o] = fd
+					e.collectorNode[o] = nodeIdx
+					e.collectorDst[o] = dstIdx
 				}
 			}
 		}
 	})
+}
+
+// c14place is the identity of a storage place an expression denotes: the variable of an identifier, or the
+// field of a selector `x.f` (all instances of the struct conflated — used for per-call state structs).
+func c14place(f *flow.Func, x ast.Expr) types.Object {
+	if x == nil {
+		return nil
+	}
+	switch t := ast.Unparen(x).(type) {
+	case *ast.Ident:
+		return c14obj(f, t)
+	case *ast.SelectorExpr:
+		if s := f.Info.Selections[t]; s != nil && s.Kind() == types.FieldVal {
+			return s.Obj()
+		}
+	}
+	return nil
 }
 
 // c14collect is one place where a node's clients are copied into a map.
@@ -387,15 +441,21 @@ type c14collect struct {
 func (e *c14env) collects(f *flow.Func, root ast.Node) []c14collect {
 	var out []c14collect
 	for _, call := range calls(root, false) {
-		fo, ok := f.Callee(call).(*types.Func)
-		if !ok || e.collectors[fo] == nil {
+		fo := c14calleeOf(f, call)
+		if fo == nil || e.collectors[fo] == nil {
 			continue
 		}
-		sel, ok := ast.Unparen(call.Fun).(*ast.SelectorExpr)
-		if !ok || len(call.Args) == 0 {
+		var node ast.Expr
+		if ni := e.collectorNode[fo]; ni == -1 {
+			node = c14recvOf(f, call)
+		} else if ni < len(call.Args) {
+			node = call.Args[ni]
+		}
+		di := e.collectorDst[fo]
+		if node == nil || di >= len(call.Args) {
 			continue
 		}
-		out = append(out, c14collect{at: call, call: call, recv: sel.X, dst: c14obj(f, call.Args[0])})
+		out = append(out, c14collect{at: call, call: call, recv: node, dst: c14place(f, call.Args[di])})
 	}
 	for _, rs := range c14ranges(root) {
 		x, ok := c14fieldRecv(f, rs.X, e.clientsF)
@@ -437,6 +497,14 @@ type c14source struct {
 // topicLevelManager.get). A missing source is a checker error (subject).
 func (e *c14env) levelSource(f *flow.Func, cons string) *c14source {
 	srcs := e.sourceCalls(f, f.Body, false)
+	if len(srcs) == 0 {
+		// the levels may be handed in by the callers (insert(levels, ..) with the level source
+		// and its error handling moved into subscribe): a []string parameter that every call
+		// site binds to the first result of a level source call
+		if s := e.levelsParam(f); s != nil {
+			return s
+		}
+	}
 	if len(srcs) != 1 {
 		e.c.Errorf("R-C14-2: anchor: %s has %d calls to the level source (getLevels), expected exactly 1", cons, len(srcs))
 		return nil
@@ -459,6 +527,50 @@ func (e *c14env) levelSource(f *flow.Func, cons string) *c14source {
 		return nil
 	}
 	return s
+}
+
+// levelsParam: f takes the validated levels as a parameter (err, errID and call stay nil).
+func (e *c14env) levelsParam(f *flow.Func) *c14source {
+	fd, ok := f.Node.(*ast.FuncDecl)
+	if !ok {
+		return nil
+	}
+	self := e.funcObj(fd)
+	params := c14params(f)
+	for pi, p := range params {
+		if !c14isSliceOf(p.Type(), c14isStr) {
+			continue
+		}
+		sites, good := 0, 0
+		e.decls(func(g *flow.Func, gd *ast.FuncDecl) {
+			for _, call := range c14callsToFn(g, gd.Body, true, self) {
+				sites++
+				if pi >= len(call.Args) {
+					continue
+				}
+				v := c14obj(g, call.Args[pi])
+				if v == nil {
+					continue
+				}
+				fromSource := false
+				ast.Inspect(gd.Body, func(n ast.Node) bool {
+					if as, ok := n.(*ast.AssignStmt); ok && len(as.Rhs) == 1 && len(as.Lhs) == 2 && c14obj(g, as.Lhs[0]) == v {
+						if src, ok := ast.Unparen(as.Rhs[0]).(*ast.CallExpr); ok && e.isSource(g, src) {
+							fromSource = true
+						}
+					}
+					return true
+				})
+				if fromSource {
+					good++
+				}
+			}
+		})
+		if sites > 0 && sites == good {
+			return &c14source{levels: p}
+		}
+	}
+	return nil
 }
 
 // ---------------------------------------------------------------------------------------
@@ -733,6 +845,41 @@ func c14Mutators(e *c14env) {
 		accs = append(accs, a)
 	})
 
+	// litFlowOf: the flow of the closure around call when that closure is handed to a lock wrapper
+	litResults := map[*ast.FuncLit]*flow.Result{}
+	litFlowOf := func(in *ast.FuncDecl, call *ast.CallExpr) (*flow.Result, c14wrapper, bool) {
+		g := flows[in]
+		var lit *ast.FuncLit
+		var wcall *ast.CallExpr
+		ast.Inspect(in.Body, func(n ast.Node) bool {
+			if c2, ok := n.(*ast.CallExpr); ok {
+				for _, a := range c2.Args {
+					if l, ok := ast.Unparen(a).(*ast.FuncLit); ok && contains(l.Body, call) {
+						lit, wcall = l, c2 // innermost wins (visited last)
+					}
+				}
+			}
+			return true
+		})
+		if lit == nil {
+			return nil, c14wrapper{}, false
+		}
+		w, ok := e.wrappedLit(g, wcall, lit)
+		if !ok {
+			return nil, c14wrapper{}, false
+		}
+		if r, seen := litResults[lit]; seen {
+			return r, w, true
+		}
+		lf := g.Lit(lit)
+		r := analyze(c, lf, flow.Config{NoHavoc: true,
+			OnCall: func(st *flow.State, call *ast.CallExpr, callee types.Object, d bool) {
+				c14lockEvent(lf, st, call, callee)
+			}})
+		litResults[lit] = r
+		return r, w, true
+	}
+
 	// lockedCallers: every call site of fo holds the lock (or lies in a function whose own
 	// call sites all do), up to depth 3.
 	var lockedCallers func(fo *types.Func, write bool, depth int) (bool, string, *flow.State)
@@ -752,6 +899,20 @@ func c14Mutators(e *c14env) {
 				for _, st := range r.At[s.call] {
 					if !c14held(st, write) {
 						okHere, bad = false, st
+					}
+				}
+			}
+			if !okHere {
+				// the call sits in a closure handed to a lock wrapper (withWriteLock(func() error {..})):
+				// the closure runs with the wrapper's lock held from entry to exit
+				if lr, w, ok := litFlowOf(s.in, s.call); ok && (w.write || !write) && lr != nil && len(lr.At[s.call]) > 0 {
+					okHere = true
+					for _, st := range lr.At[s.call] {
+						for _, k := range st.Facts() {
+							if (strings.HasPrefix(k, "ev:w:") || strings.HasPrefix(k, "ev:r:")) && strings.HasSuffix(k, "=F") {
+								okHere, bad = false, st // the closure releases the lock before the call
+							}
+						}
 					}
 				}
 			}
@@ -965,6 +1126,9 @@ func c14QoS(e *c14env) {
 		f := flow.NewFunc(e.pkg, fd)
 		cons := declName(e.pkg, fd)
 		recv := c14recvObj(f, fd)
+		if ni := e.collectorNode[fo]; ni >= 0 && ni < len(c14params(f)) {
+			recv = c14params(f)[ni]
+		}
 		stores, good := 0, 0
 		var badAt ast.Node
 		pm := parentMap(fd.Body)
@@ -1018,9 +1182,9 @@ func c14QoS(e *c14env) {
 		var result types.Object
 		ast.Inspect(f.Body, func(n ast.Node) bool {
 			if r, ok := n.(*ast.ReturnStmt); ok && len(r.Results) == 2 && f.Info.Types[r.Results[1]].IsNil() {
-				if o := c14obj(f, r.Results[0]); o != nil {
+				if o := c14place(f, r.Results[0]); o != nil {
 					if _, isMap := o.Type().Underlying().(*types.Map); isMap {
-						result = o
+						result = o // a variable, or a field of a per-call state struct (m.found)
 					}
 				}
 			}
@@ -1036,7 +1200,11 @@ func c14QoS(e *c14env) {
 			var escapedIn *flow.Func
 			nCols := 0
 			isResult := func(g *flow.Func, x ast.Expr) bool {
-				return c14denotes(bind, g, c14obj(g, x), result, 4)
+				o := c14place(g, x)
+				if v, ok := o.(*types.Var); ok && v.IsField() {
+					return o == result
+				}
+				return c14denotes(bind, g, o, result, 4)
 			}
 			for _, g := range reach(f, 3) {
 				g := g
@@ -1153,38 +1321,62 @@ func c14QoS(e *c14env) {
 	// subscribe: insert(topics[i], qoss[i], client)
 	if f := e.role("subscribe").f; f != nil {
 		cons := e.role("subscribe").cons
-		ins := c14callsToFn(f, f.Body, false, e.role("insert").obj)
+		ins := c14callsToFn(f, f.Body, true, e.role("insert").obj)
 		c.RequireCount("R-C14-5", "insert call sites in subscribe", len(ins), 1)
-		pm := parentMap(f.Body)
 		for _, call := range ins {
-			if len(call.Args) != 3 {
+			if len(call.Args) < 3 {
 				c.Undecide("R-C14-5", cons+"|QoS paired with its filter", pos(c, call), "insert does not take (filter, qos, client)")
 				continue
 			}
-			var rs *ast.RangeStmt
-			for p := pm[call]; p != nil; p = pm[p] {
-				if r, ok := p.(*ast.RangeStmt); ok && c14isParam(f, c14obj(f, r.X)) {
-					rs = r
-					break
+			// the enclosing element-wise loop over a slice parameter of subscribe (any loop form)
+			var it *c14iter
+			loops := enclosingLoops(f.Body, call)
+			for i := len(loops) - 1; i >= 0 && it == nil; i-- {
+				if cand := c14iterOf(f, loops[i]); cand != nil && c14isParam(f, c14obj(f, cand.slice)) {
+					it = cand
 				}
 			}
 			ok := false
 			why := "insert is not called from a loop over the filter slice parameter"
-			if rs != nil {
-				key, val := c14obj(f, rs.Key), c14obj(f, rs.Value)
-				topicsP := c14obj(f, rs.X)
-				// filter argument: range value, or topics[key]
-				filterOK := val != nil && c14obj(f, call.Args[0]) == val
-				if ix, isIx := ast.Unparen(call.Args[0]).(*ast.IndexExpr); isIx && c14obj(f, ix.X) == topicsP && key != nil && c14obj(f, ix.Index) == key {
-					filterOK = true
+			if it != nil {
+				topicsP := c14obj(f, it.slice)
+				isElem := func(x ast.Expr) bool {
+					x = ast.Unparen(x)
+					if o := c14obj(f, x); o != nil && o == it.elem {
+						return true
+					}
+					ix, isIx := x.(*ast.IndexExpr)
+					return isIx && c14obj(f, ix.X) == topicsP && it.key != nil && c14obj(f, ix.Index) == it.key
 				}
-				qosOK := false
-				if ix, isIx := ast.Unparen(call.Args[1]).(*ast.IndexExpr); isIx {
-					qp := c14obj(f, ix.X)
-					qosOK = qp != nil && qp != topicsP && c14isParam(f, qp) && key != nil && c14obj(f, ix.Index) == key
+				filterOK, qosOK, clientOK := false, false, false
+				for _, a := range call.Args {
+					a = ast.Unparen(a)
+					switch {
+					case isElem(a):
+						filterOK = true
+					case c14isSliceOf(f.Info.Types[a].Type, c14isStr):
+						// the levels a level source returned for the current element in this iteration
+						if v := c14obj(f, a); v != nil {
+							ast.Inspect(it.body, func(n ast.Node) bool {
+								if as, isAs := n.(*ast.AssignStmt); isAs && len(as.Rhs) == 1 && c14obj(f, as.Lhs[0]) == v {
+									if src, isC := ast.Unparen(as.Rhs[0]).(*ast.CallExpr); isC && e.isSource(f, src) && len(src.Args) == 1 && isElem(src.Args[0]) {
+										filterOK = true
+									}
+								}
+								return true
+							})
+						}
+					}
+					if ix, isIx := a.(*ast.IndexExpr); isIx {
+						qp := c14obj(f, ix.X)
+						if qp != nil && qp != topicsP && c14isParam(f, qp) && c14isSliceOf(qp.Type(), c14isByte) && it.key != nil && c14obj(f, ix.Index) == it.key {
+							qosOK = true
+						}
+					}
+					if cl := c14obj(f, a); cl != nil && c14isParam(f, cl) && c14isStr(cl.Type()) {
+						clientOK = true
+					}
 				}
-				cl := c14obj(f, call.Args[2])
-				clientOK := cl != nil && c14isParam(f, cl)
 				ok = filterOK && qosOK && clientOK
 				switch {
 				case !filterOK:
@@ -1277,6 +1469,8 @@ func c14InsertAlways(e *c14env, f *flow.Func, cons string) {
 		}
 		return false
 	}
+	// an insert without error result (the levels are validated by its callers) succeeds on every return
+	noErrResult := f.Type.Results == nil || len(f.Type.Results.List) == 0
 	errFalse := func(st *flow.State) bool { return false }
 	if src := e.sourceCalls(f, f.Body, false); len(src) == 1 {
 		ast.Inspect(f.Body, func(n ast.Node) bool {
@@ -1292,12 +1486,17 @@ func c14InsertAlways(e *c14env, f *flow.Func, cons string) {
 	var bad *flow.Exit
 	n := 0
 	for _, ex := range res.Exits {
-		if ex.Kind != flow.ExitReturn || ex.Return == nil || len(ex.Return.Results) == 0 {
+		if ex.Kind != flow.ExitReturn {
 			continue
 		}
-		last := ex.Return.Results[len(ex.Return.Results)-1]
-		if nn, ok := c14nonNilErr(f, ex.State, last); !ok || nn {
-			continue // error exit (or unclassified): R-C14-2
+		if !noErrResult {
+			if ex.Return == nil || len(ex.Return.Results) == 0 {
+				continue
+			}
+			last := ex.Return.Results[len(ex.Return.Results)-1]
+			if nn, ok := c14nonNilErr(f, ex.State, last); !ok || nn {
+				continue // error exit (or unclassified): R-C14-2
+			}
 		}
 		if e.insertPrevalidated && errFalse(ex.State) {
 			continue // every call site validated the batch first: the level source cannot fail here
